@@ -49,6 +49,48 @@ def _gobj(ctx, a1v, a2v, normal, V):
     return SymObj(cls, {'a1vect': arr(a1v), 'a2vect': arr(a2v), 'planenormal': arr(normal), 'box': Bx()}, 'self')
 
 
+def gamma_set(ctx):
+    """GammaSurface.set interpreted whole (table and fit stubbed): the shift vectors are stored as given (crystal vectors when a box is given), and the stored plane normal is
+    the unit vector along (a1·V) x (a2·V) -- the cross product of the *Cartesian* shift vectors; the conversions between fractional, Cartesian and plotting coordinates
+    all lean on it being perpendicular to both"""
+    cls = ctx.fn(GS, 'GammaSurface')
+    fn = ctx.fn(GS, 'GammaSurface.set')
+    loc = GS + '::GammaSurface.set'
+    V = symarray('v', (3, 3), real=True)
+
+    class Bx(PyStub):
+        _isa = ('Box',)
+        vects = V
+
+    class Frame(PyStub):
+        def __init__(self, data):
+            self.data = dict(data)
+    for tag, u, w in (('prismatic-type shifts [100], [001] in a general cell', [1, 0, 0], [0, 0, 1]), ('shifts [1-10], [11-2]', [1, -1, 0], [1, 1, -2]), ('shifts [210], [011]', [2, 1, 0], [0, 1, 1])):
+        me = SymObj(cls, {'fit': (lambda: None)}, 'self')
+        ev = SymEval(module_aliases(ctx.mod(GS)))
+
+        class Pd(PyStub):
+            def DataFrame(self, d):
+                return Frame(d)
+        ev.globals = {'Box': Bx, 'pd': Pd(), 'OrderedDict': dict}
+        try:
+            _ret(ev.run_fn(fn, [me, [sp.Integer(x_) for x_ in u], [sp.Integer(x_) for x_ in w], 'A1', 'A2', 'E'], {'box': Bx()}), 'GammaSurface.set')
+        except WouldRaise as e:
+            ctx.ob('GAMMA-SET', loc, '%s: the data are accepted' % tag, False, str(e), node=fn, key='set runs ' + tag)
+            continue
+        except Opaque as e:
+            raise AnalysisError('GammaSurface.set (%s): %s' % (tag, e))
+        nrm = me.attrs.get('_GammaSurface__planenormal')
+        cu, cw = np.dot(arr(u), V), np.dot(arr(w), V)
+        want = np.cross(cu, cw)
+        ok = nrm is not None and np.shape(nrm) == (3,) and all(is_zero(sp.simplify(x_)) for x_ in np.cross(np.asarray(nrm, dtype=object), want)) \
+            and is_zero(sp.simplify(sum(x_ ** 2 for x_ in nrm) - 1)) and is_zero(sp.simplify(sum(a_ * b_ for a_, b_ in zip(nrm, cu)))) and is_zero(sp.simplify(sum(a_ * b_ for a_, b_ in zip(nrm, cw))))
+        ctx.ob('GAMMA-SET', loc, '%s: the stored plane normal is the unit vector along (a1·V) x (a2·V), perpendicular to both Cartesian shift vectors' % tag, bool(ok), node=fn, key='set normal ' + tag)
+        ok = equal(np.asarray(me.attrs.get('_GammaSurface__a1vect'), dtype=object), arr(u), deep=False) and equal(np.asarray(me.attrs.get('_GammaSurface__a2vect'), dtype=object), arr(w), deep=False) \
+            and me.attrs.get('_GammaSurface__box') is not None and isinstance(me.attrs.get('_GammaSurface__data'), Frame) and me.attrs['_GammaSurface__data'].data.get('a1') == 'A1' and me.attrs['_GammaSurface__data'].data.get('E_gsf') == 'E'
+        ctx.ob('GAMMA-SET', loc, '%s: the shift vectors are stored as given (crystal vectors), with the box and the sampled data' % tag, bool(ok), node=fn, key='set stored ' + tag)
+
+
 def gamma_conv(ctx):
     aliases = module_aliases(ctx.mod(GS))
     A, B, C = sp.symbols('A B C', positive=True)
@@ -331,7 +373,7 @@ def pn_terms(ctx):
 
     def obj(cd):
         cls = ctx.fn(PN, 'SDVPN')
-        o = SymObj(cls, {'x': x, 'disregistry': stored, 'K_tensor': K, 'tau': tau, 'beta': beta, 'alpha': alpha, 'burgers': b, 'cutofflongrange': Lc, 'transform': T, 'gamma': Gam(),
+        o = SymObj(cls, {'x': x.copy(), 'disregistry': stored.copy(), 'K_tensor': K.copy(), 'tau': tau.copy(), 'beta': beta.copy(), 'alpha': list(alpha), 'burgers': b.copy(), 'cutofflongrange': Lc, 'transform': T.copy(), 'gamma': Gam(),
                          'fullstress': False, 'cdiffelastic': cd, 'cdiffsurface': cd, 'cdiffstress': cd}, 'self')
         return o
 
@@ -404,6 +446,9 @@ def pn_terms(ctx):
                 third = run(name, o, x2, d2)
             except WouldRaise as ex:
                 continue       # reported by the per-term obligations
+            kept = all(equal(np.asarray(o.attrs[k_], dtype=object), np.asarray(v_, dtype=object), deep=False) for k_, v_ in (('tau', tau), ('beta', beta), ('K_tensor', K), ('burgers', b), ('transform', T), ('x', x), ('disregistry', stored)))
+            ctx.ob('PN-TERMS', loc + name, '%s differences: evaluating the term leaves the object\'s settings (applied stress, coefficients, stored profile) as they were' % ('central' if cd else 'forward'), bool(kept),
+                   node=ctx.fn(PN, 'SDVPN.' + name), key='settings kept %s %s' % (name, cd))
             same = is_zero(sp.expand(sp.expand_log(sp.sympify(second) - sp.sympify(fresh), force=True))) and is_zero(sp.expand(sp.expand_log(sp.sympify(third) - sp.sympify(fresh), force=True)))
             ctx.ob('PN-TERMS', loc + name, '%s differences: the value for a grid and profile does not depend on the grid the same object was evaluated on before' % ('central' if cd else 'forward'), bool(same),
                    node=ctx.fn(PN, 'SDVPN.' + name), key='history %s %s' % (name, cd))
@@ -538,4 +583,4 @@ def run(ctx):
                        'fit() is evaluated on model sample grids and the interpolation nodes compared with the periodic tiling; E_gsf routing, period reduction and edge blending are evaluated with a symbolic interpolant; '
                        'every Peierls-Nabarro energy term is evaluated on a symbolic five-point profile and compared with its documented formula; the optimiser wiring of solve() is evaluated with a recording minimiser; '
                        'the arctangent pair is differentiated by the CAS. Not decided: interpolation accuracy, energy decrease under minimisation, the classical half-width.')
-    ctx.run_rules([gamma_conv, gamma_fit, gamma_egsf, pn_terms, pn_solve, arctan, grids, api])
+    ctx.run_rules([gamma_set, gamma_conv, gamma_fit, gamma_egsf, pn_terms, pn_solve, arctan, grids, api])
